@@ -203,9 +203,33 @@ func c13SigOf(p string, depth int) string {
 
 type c13Mon struct {
 	pre   map[string]string // leaf path -> signature before post-processing
+	kind  map[string]string // leaf path -> "reg" (regular file / directory) | "link", before post-processing
+	occ   map[string]int    // how many file leaves name this path
+	psDir string
+	alias []string // aliased leaves whose recorded value is another output's location
 	fails []string
 	leafs int // non-null file leaves that had content
 	nulls int
+}
+
+func newC13Mon(psDir string) *c13Mon {
+	return &c13Mon{pre: map[string]string{}, kind: map[string]string{}, occ: map[string]int{}, psDir: psDir}
+}
+
+// record notes what a file leaf's path holds before post-processing.
+func (m *c13Mon) record(v *c13J) {
+	if v.K != 'q' || v.S == "" || !filepath.IsAbs(v.S) {
+		return
+	}
+	m.occ[v.S]++
+	m.pre[v.S] = c13SigOf(v.S, 0)
+	if info, err := os.Lstat(v.S); err == nil {
+		if info.Mode()&os.ModeSymlink != 0 {
+			m.kind[v.S] = "link"
+		} else {
+			m.kind[v.S] = "reg"
+		}
+	}
 }
 
 func (m *c13Mon) failf(f string, a ...interface{}) {
@@ -316,6 +340,16 @@ func (m *c13Mon) walk(where string, mem c13Member, pre, post *c13J, outsDir stri
 			m.failf("%s: value of an existing file became %s", where, post.canon())
 		} else if got := c13SigOf(post.S, 0); got != sig {
 			m.failf("%s: recorded value %s does not hold the content of %s", where, post.S, pre.S)
+		} else if m.kind[pre.S] == "reg" && strings.Contains(filepath.Clean(pre.S), m.psDir) && post.S != dest {
+			// strict reading: the value of a moved file is its OWN derived path
+			if m.occ[pre.S] > 1 {
+				if len(m.alias) < 4 {
+					m.alias = append(m.alias, fmt.Sprintf("%s: file %s is bound to %d outputs; this one is reachable at %s but its recorded value is %s",
+						where, pre.S, m.occ[pre.S], dest, post.S))
+				}
+			} else {
+				m.failf("%s: recorded value %s is not the output's own location %s", where, post.S, dest)
+			}
 		}
 	case "a":
 		if pre.K != 'A' {
@@ -683,13 +717,9 @@ func c13Direct(c *Ctx, r *Result, idx int, seed int64, nearMiss, overlap bool, c
 		outs.Vals = append(outs.Vals, g.value(p.Ty, p.Id))
 	}
 	cs := &c13Contents{}
-	mon := &c13Mon{pre: map[string]string{}}
+	mon := newC13Mon(ps)
 	for i, p := range params {
-		c13Leaves(p, outs.Vals[i], func(_ c13Member, v *c13J) {
-			if v.K == 'q' && v.S != "" && filepath.IsAbs(v.S) {
-				mon.pre[v.S] = c13SigOf(v.S, 0)
-			}
-		})
+		c13Leaves(p, outs.Vals[i], func(_ c13Member, v *c13J) { mon.record(v) })
 	}
 	before := c13Snapshot([]string{root}, cs, nil)
 
@@ -788,6 +818,14 @@ func c13Direct(c *Ctx, r *Result, idx int, seed int64, nearMiss, overlap bool, c
 			}
 			r.violate(Violation{Kind: "property", Key: c13FailKey(params, outs, tags), What: "outputs not materialised faithfully: " + strings.Join(mon.fails, "; "),
 				Input: cas, Impl: strings.ReplaceAll(realStr, root, "$ROOT"), Expect: "every non-null file leaf readable under outs/<derived name> with the stage's content; same shape; other values unchanged"})
+		}
+		if len(mon.alias) > 0 {
+			r.hist("direct:alias-value-points-at-other-output")
+			for i := range mon.alias {
+				mon.alias[i] = strings.ReplaceAll(mon.alias[i], root, "$ROOT")
+			}
+			r.violate(Violation{Kind: "property", Key: "C13:alias-record-points-at-first", What: strings.Join(mon.alias, "; "),
+				Input: cas, Impl: strings.ReplaceAll(realStr, root, "$ROOT")})
 		}
 	} else if overlap && g.tags["overlap"] && perr == nil {
 		for _, p := range params {
